@@ -59,11 +59,8 @@ impl PrcBitTable {
         let mut p_to_bits = ZEROS;
 
         // MAX_P_TO_BITS is designed not to overflow after 16 times of addition.
-        //
-        // TODO: there's still a risk of overflow when there's a consecutive 16
-        // elements in `error` where all are larger than `1 << 28`. Since it's
-        // very low probability and clamping inputs may degrade the performance,
-        // this issue is ignored currently.
+        // Each addend is clamped to MAX_P_TO_BITS, so the sum of one chunk and
+        // the (already clamped) running value stays below `17 << 28`.
         //
         // In most of SIMD-capable CPUs, saturating ops can be done with a
         // single instruction. However, strangely the use of `saturating_add`
@@ -72,13 +69,13 @@ impl PrcBitTable {
         for chunk in errors.chunks(PRC_BIT_TABLE_FROM_ERRORS_UNROLL_N) {
             if chunk.len() == PRC_BIT_TABLE_FROM_ERRORS_UNROLL_N {
                 repeat!(n to PRC_BIT_TABLE_FROM_ERRORS_UNROLL_N => {
-                    p_to_bits += simd::Simd::splat(chunk[n]) >> INDEX;
+                    p_to_bits += (simd::Simd::splat(chunk[n]) >> INDEX).simd_min(MAX_P_TO_BITS_VEC);
                 });
             } else {
                 repeat!(
                     n to PRC_BIT_TABLE_FROM_ERRORS_UNROLL_N;
                     while n < chunk.len() => {
-                        p_to_bits += simd::Simd::splat(chunk[n]) >> INDEX;
+                        p_to_bits += (simd::Simd::splat(chunk[n]) >> INDEX).simd_min(MAX_P_TO_BITS_VEC);
                     }
                 );
             }
@@ -112,7 +109,7 @@ impl PrcBitTable {
     pub fn merge(&self, other: &Self, offset: usize) -> Self {
         let offset = simd::u32x16::splat(offset as u32);
         Self {
-            p_to_bits: self.p_to_bits + other.p_to_bits - offset,
+            p_to_bits: (self.p_to_bits + other.p_to_bits - offset).simd_min(MAX_P_TO_BITS_VEC),
         }
     }
 }
